@@ -119,6 +119,58 @@ def bind(chk: Check, tier: str, seed: int):
                           f"decoders built from the same arguments {ref} disagree with one built from a fresh copy at step {k + 1}: "
                           f"first {o1[k] and o1[k][:2]}, second {o2[k] and o2[k][:2]}, fresh {fresh[k] and fresh[k][:2]}")
     chk.add(constructor_argument_families=len(family))
+    # neighbours whose preferences name the SAME quantities with OTHER units (what a process-wide memo keyed too coarsely would
+    # mix up): what a decoder returns next to, after or before such a neighbour equals what it returns alone in a fresh
+    # process (one process per preference map computes the reference)
+    import subprocess
+    import sys
+    from concurrent.futures import ThreadPoolExecutor
+    from ..common import REPO
+    prefs = [{"TEMPERATURE": "c"}, {"TEMPERATURE": "f"}, {"PRESSURE": "bar"}, {"PRESSURE": "psi"}, {"ANGLE": "deg"}, {"ANGLE": "rad"},
+             {"SPEED": "kts"}, {"SPEED": "m/s"}, {"ANGLE": "deg", "TEMPERATURE": "f", "SPEED": "kts"},
+             {"ANGLE": "rad", "TEMPERATURE": "c", "SPEED": "m/s"}, {"ANGLE": "deg", "TEMPERATURE": "c", "SPEED": "kts"}]
+    probes = [fp.ebyte_packet(127250, 11, 255, 2, bytes([1, 0x10, 0x20, 0, 0, 0, 0, 0xFC])),
+              fp.ebyte_packet(130306, 11, 255, 2, bytes([2, 0x11, 0x01, 0x20, 0x03, 0xFA, 0xFF, 0xFF])),
+              fp.ebyte_packet(130312, 11, 255, 5, bytes([3, 1, 1, 0x50, 0x73, 0x60, 0x74, 0xFF])),
+              fp.ebyte_packet(130314, 11, 255, 5, bytes([4, 1, 0, 0x10, 0x27, 0x0F, 0x00, 0xFF]))]
+    helper = ("import sys, json; sys.path.insert(0, %r)\n"
+              "from nmea2000.decoder import NMEA2000Decoder\nfrom nmea2000.consts import PhysicalQuantities as PQ\n"
+              "pr, probes = json.load(sys.stdin)\nd = NMEA2000Decoder(preferred_units={PQ[k]: v for k, v in pr.items()})\n"
+              "out = []\n"
+              "for p in probes:\n    m = d.decode_tcp(bytes.fromhex(p))\n"
+              "    out.append(None if m is None else [[f.id, repr(f.value), f.unit_of_measurement] for f in m.fields])\n"
+              "print(json.dumps(out))\n") % str(REPO)
+
+    def alone(pr):
+        r = subprocess.run([sys.executable, "-c", helper], input=json.dumps([pr, [x.hex() for x in probes]]), capture_output=True,
+                           text=True, timeout=120, env=dict(__import__("os").environ, PYTHONDONTWRITEBYTECODE="1"))
+        return json.loads(r.stdout) if r.returncode == 0 else ("helper failed", r.stderr[-300:])
+
+    def here(dec):
+        out = []
+        for pk in probes:
+            m = dec.decode_tcp(pk)
+            out.append(None if m is None else [[f.id, repr(f.value), f.unit_of_measurement] for f in m.fields])
+        return out
+    with ThreadPoolExecutor(len(prefs)) as ex:
+        refs = list(ex.map(alone, prefs))
+    chk.gate(all(isinstance(r, list) and all(x is not None for x in r) for r in refs), f"fresh-process references incomplete: {refs[:1]}")
+    chk.gate(len({json.dumps(r) for r in refs if isinstance(r, list)}) >= len(prefs) - 3, "preference maps do not change what the probes decode to")
+    mk = lambda pr: NMEA2000Decoder(preferred_units={PQ[k]: v for k, v in pr.items()})   # noqa: E731
+    pairs = 0
+    for order in ("ascending", "descending", "alive-together"):
+        seq = list(enumerate(prefs)) if order != "descending" else list(enumerate(prefs))[::-1]
+        decs = [(i, mk(pr)) for i, pr in seq] if order == "alive-together" else None
+        for n, (i, pr) in enumerate(seq):
+            got = here(decs[n][1] if decs else mk(pr))
+            pairs += 1
+            if isinstance(refs[i], list) and got != refs[i]:
+                k = next(j for j, (x, y) in enumerate(zip(got, refs[i])) if x != y)
+                diff = next(((a, b) for a, b in zip(got[k] or [], refs[i][k] or []) if a != b), (got[k], refs[i][k]))
+                chk.violation(f"instance-depends-on-neighbour-preferences/{'+'.join(sorted(pr))}",
+                              f"decoder with preferences {pr} ({order}, after decoders with other units for the same quantities) returns "
+                              f"{diff[0]} where the same decoder alone in a fresh process returns {diff[1]}", {"preferences": pr, "order": order})
+    chk.add(neighbour_preference_observations=pairs)
     bads = sum(1 for t in traces for e in t["evs"] if e["in"]["k"] == "bad")
     trunc = sum(1 for t in traces for e in t["evs"] if e["in"]["k"] == "frame" and not e["in"]["chunk"])
     others = sum(1 for t in traces for e in t["evs"] if e["who"] == "G")
